@@ -14,11 +14,21 @@ def modulus(upto, need=16):
         if p <= upto and m * p * (need + 1) < 2**62: m *= p
     return m
 
+def get_shortcut_checks_key():
+    """what the translator found at the top of Table_Get (CelloGen/Table.lean is regenerated before the cases are generated): True once
+    the repair of KF-C02-get-alias is in the source — `getv` is then generated everywhere, not only outside the finding's territory"""
+    try:
+        txt = open(os.path.join(core.ROOT, 'lean', 'CelloGen', 'Table.lean')).read()
+        return re.search(r'def getShortcutChecksKey : Bool := (true|false)', txt).group(1) == 'true'
+    except Exception:
+        return False
+
 class Gen:
     """op-file writer with a shadow of what is bound where (only to choose present/absent keys; the oracle is in the harness)"""
     def __init__(self, rng):
         self.rng = rng; self.lines = []; self.bound = [dict() for _ in range(NT)]; self.kind = ['I'] * NT
         self.nextval = 1
+        self.alias_open = get_shortcut_checks_key()
     def emit(self, s): self.lines.append(s)
     def val(self):
         self.nextval += 1
@@ -33,9 +43,46 @@ class Gen:
     def resize(self, t, n):
         self.emit(f'resize {t} {n}')
         if n == 0: self.bound[t] = {}
-    def assign(self, d, s):
-        assert d != s
+    def assign(self, d, s):      # d == s allowed: assign(t, t) leaves t as it is
         self.emit(f'assign {d} {s}'); self.bound[d] = dict(self.bound[s]); self.kind[d] = self.kind[s]
+    @staticmethod
+    def keyorder(kind, k): return k.split(':')[0] if kind == 'S' else int(k.split(':')[0])
+    def newp(self, t, kind, keys, odd=None):
+        """tables[t] = new(Table, K, V, k1, v1, ...): keys may repeat; `odd` = one more argument (FormatError, t unchanged)"""
+        toks = []
+        for k in keys: toks += [k, str(self.val())]
+        if odd is not None: toks.append(odd)
+        self.emit(' '.join([f'newp {t} {kind}'] + toks))
+        if odd is None: self.bound[t] = {k: 1 for k in keys}; self.kind[t] = kind
+    def assignm(self, t, kind, keys):
+        """assign(tables[t], m) for a map m that is not a Table and yields these keys in this order (a key may repeat)"""
+        ks = list(keys)
+        toks = []
+        for k in ks: toks += [k, str(self.val())]
+        self.emit(' '.join([f'assignm {t} {kind}'] + toks))
+        self.bound[t] = {k: 1 for k in ks}; self.kind[t] = kind
+    def alias(self, t, pool):
+        """a `get` whose key argument lives in the table's own storage, outside KF-C02-get-alias: the stored key object (present or
+        absent key), the value object of an absent key (KeyError before any value exists), and for Int -> Int tables the value
+        object of a key whose value is bound to itself"""
+        rng = self.rng; b = self.bound[t]; r = rng.random()
+        absent = [k for k in rng.sample(pool, min(len(pool), 6)) if k not in b]
+        if self.alias_open and r < 0.5:
+            self.emit(f'getv {t} {self.some_present(t) if (b and rng.random() < 0.8) else rng.choice(pool)}')
+        elif r < 0.45:
+            k = self.some_present(t) if (b and rng.random() < 0.8) else rng.choice(pool)
+            self.emit(f'getk {t} {k}')
+        elif r < 0.65 and absent: self.emit(f'getv {t} {absent[0]}')
+        elif self.kind[t] == 'I':
+            k = rng.choice(pool)
+            if abs(int(k)) >= 2**62: return
+            self.emit(f'set {t} {k} {k}'); b[k] = 1
+            self.emit(f'getv {t} {k}')
+            if rng.random() < 0.5:
+                j = rng.choice(pool)
+                if j != k:
+                    self.emit(f'set {t} {j} {k}'); b[j] = 1
+                    self.emit(f'getv {t} {j}'); self.emit(f'getk {t} {j}')
     def copy(self, d, s): self.emit(f'copy {d} {s}'); self.bound[d] = dict(self.bound[s]); self.kind[d] = self.kind[s]
     def some_present(self, t):
         b = self.bound[t]
@@ -48,6 +95,7 @@ class Gen:
         rng = self.rng
         for _ in range(nops):
             b = self.bound[t]; r = rng.random()
+            if rng.random() < 0.03: self.alias(t, pool); continue
             grow = len(b) < target
             p_new = 0.45 if grow else 0.15
             p_rem = 0.12 if grow else 0.40
@@ -73,7 +121,15 @@ class Gen:
         ks = list(self.bound[t].keys())
         if order == 'random': self.rng.shuffle(ks)
         elif order == 'lifo': ks.reverse()
-        for k in ks: self.rem(t, k)
+        for i, k in enumerate(ks):
+            self.rem(t, k)
+            if len(ks) - i <= 3: self.emit(f'riter {t}'); self.emit(f'iter {t}')      # the last entries alone, wherever they sit (slot 0, last slot)
+    def ends(self, t, kind, pool):
+        """a single entry, then two, iterated both ways: entries whose home is slot 0 or the last slot are taken from the pool's classes"""
+        for k in self.rng.sample(pool, min(3, len(pool))):
+            self.new(t, kind); self.set(t, k); self.emit(f'riter {t}'); self.emit(f'iter {t}')
+            k2 = self.rng.choice(pool)
+            self.set(t, k2); self.emit(f'riter {t}'); self.rem(t, k); self.emit(f'riter {t}'); self.emit(f'iter {t}')
 
 def int_pool(rng, size, upto, classes):
     """Int keys from a few residue classes modulo `modulus(upto)`: every class is one collision cluster at every size"""
@@ -146,21 +202,26 @@ def string_pool(rng, hexe):
 
 class C02(Spec):
     id = 'C02'; engine = 'table'; harness = 'h_table'; driver = 'drv_table'
-    generators = ('Table',)
+    generators = ('Table', 'Cmp', 'Hash')      # Cmp: `eq` + Int_Cmp, Hash: hash_data — the Int / String key instances (C02_int_keys, C02_string_keys)
     harness_timeout = 600
     # Table_Get's "is the key inside my own storage" test computes `(char*)t->data + t->nslots * step` with data == NULL and
     # nslots == 0 on a cleared table: NULL + 0, flagged by UBSan's pointer-overflow check in C mode although the result is only
     # compared and no platform misbehaves on it (same decision as C12). That one check is switched off; reported to the coordinator.
     harness_flags = ('-fno-sanitize=pointer-overflow',)
     technique = ('Lean 4 proof: the robin-hood model of Table.c (insert with displacement and in-place update, backward-shift removal, '
-                 'rehash as a fold, resize, assign/copy) refines an association list for every hash function and every history, by a local '
-                 'slot-array invariant; source-derived parameters (prime table, load factor, tie rule, empty-table guard, probe arithmetic) '
+                 'rehash as a fold, resize, assign/copy incl. self-assignment, constructor with pairs, assign from another kind of map, the address '
+                 'test of Table_Get) refines an association list for every hash function and every history, by a local '
+                 'slot-array invariant; source-derived parameters (prime table, load factor, tie rule, empty-table guard, self-assignment guard, '
+                 'probe arithmetic, eq/Int_Cmp/hash_data for the Int and String key classes) '
                  'regenerated each run; white-box differential check of the whole slot array against the real Table after every operation')
     level_text = ('Theorem C02_refines_map: for every hash function, every key type with decidable equality and every history of '
-                  'new/set/rem/get/mem/len/iterate/resize/assign/copy over several tables (assign(t, t) excluded: known finding), the model of '
-                  'src/Table.c never fails and its observations are those of an association-list specification, with the slot-array invariant '
+                  'new/set/rem/get/mem/len/iterate/resize/assign/copy over several tables (assign(t, t) included; new with initial pairs and assign '
+                  'from a map that is not a Table included), the model of src/Table.c never fails and its observations are those of an association-list specification, with the slot-array invariant '
                   '(stored home = hash % nslots, distinct keys, probe-distance order, an empty slot, nitems = occupied) holding after every step. '
-                  'The parameters a source change can flip (Table_Primes, load factor, `j > p`, the nslots = 0 guard, Table_Probe) are regenerated '
+                  'C02_int_keys / C02_string_keys instantiate it with the key test eq() over Int_Cmp resp. strcmp and the hashes Int_Hash resp. hash_data, '
+                  'as translated from the source. get with a key object that lies in the table\'s own slot array: proved right for the stored key object '
+                  '(iteration), refuted for a value object (known finding KF-C02-get-alias); the lookup theorem carries the hypothesis `outside`. '
+                  'The parameters a source change can flip (Table_Primes, load factor, `j > p`, the nslots = 0 guard, the self-assignment guard, Table_Probe) are regenerated '
                   'from /repo on every run and the theorems are re-checked against them; the model is tied to the real Table by comparing the '
                   'complete slot array, nitems and nslots after every operation of thousands of adversarial histories (keys colliding at every '
                   'size passed through, String keys with searched collisions, a probe element type with its own hash), and the real Table is '
@@ -174,15 +235,18 @@ class C02(Spec):
             'non-first cluster members, removals of present and absent keys, get/mem/len/iter/riter) / drain / refill; (b) probe element type with '
             'adversarial hash functions (constant, two values, home = last slots so clusters wrap, adjacent homes, 2^64-1); (c) String keys '
             'whose real hashes collide modulo 5*11*23 (hashes obtained from the library under test); (d) resize(0) then use, reserve then '
-            'fill, refused shrink, assign and copy between tables of different kinds; (e) larger tables (window dumps + checksums); '
+            'fill, refused shrink, assign (one in five: assign(t, t)) and copy between tables of different kinds, new with 0-30 initial pairs (keys '
+            'repeat, odd argument count), assign from a probe map type that is not a Table; in all phases 3% of the ops are gets whose key object lives '
+            'in the table (getk: stored key object; getv: value object of an absent key or of a key bound to itself); (e) larger tables (window dumps + checksums); '
             '(f) Table_Ideal_Size on ranges. non-trivial observation = the dump shows an entry away from its home slot, or the op raised '
             'KeyError/FormatError, or it rehashed; distinct = distinct text of (op, observation line).')
     trusted_base = ('translate/g_table.py generator Table (regex over src/Table.c)',
                     'harness/h_table.c + lean/Driver/Table.lean (correspondence is testing)',
                     'hash(), eq(), assign(), destruct() of the element types are functions of the value (C05/C09/C10)')
     assumptions = ('one hash value per key (hash is a function of the key, eq keys hash equally: C10)',
-                   'assign(t, t) is not issued (known finding KF-C02-self-assign: it empties the table)',
-                   'fewer than 2^63 items; keys given to get/rem do not point into the table\'s own storage except during iteration',
+                   'get(t, x) with x the value object of one of t\'s own records is issued only where the map binds that value to itself or the key is '
+                   'absent (known finding KF-C02-get-alias: Table_Get answers any address inside its slot array with the value of that record)',
+                   'fewer than 2^63 items; no pointer into the slot array is used after a mutation of the table',
                    'single thread; allocation does not fail')
 
     def _hexe(self):
@@ -207,6 +271,7 @@ class C02(Spec):
                 pool = int_pool(rng, int(target * 1.6) + 4, upto, classes)
                 if target <= 90 and rep % 3 == 1: pool = wide_int_pool(rng, int(target * 1.6) + 4, classes)
                 t = rng.randrange(NT)
+                if target <= 20: g.ends(t, 'I', pool)
                 g.churn(t, pool, target * 4 + 30, target)
                 g.emit(f'iter {t}'); g.emit(f'riter {t}')
                 g.drain(t, rng.choice(['random', 'lifo', 'fifo']))
@@ -220,6 +285,7 @@ class C02(Spec):
                 target = rng.choice([4, 9, 18, 40, 80] if quick else [4, 9, 18, 40, 80, 160, 300])
                 pool = probe_pool(rng, int(target * 1.7) + 3, mode, 101 if target < 90 else 389)
                 t = rng.randrange(NT); g.new(t, 'P')
+                if target <= 18: g.ends(t, 'P', pool)
                 g.churn(t, pool, target * 4 + 20, target)
                 g.drain(t, 'random'); g.emit(f'len {t}')
                 g.churn(t, pool, target * 2, target // 2 + 1)
@@ -256,12 +322,21 @@ class C02(Spec):
                         g.emit(rng.choice([f'get {t} {k}', f'mem {t} {k}', f'rem {t} {k}', f'iter {t}', f'riter {t}', f'len {t}', f'resize {t} 0', f'check {t}']))
                 elif r < 0.58: g.resize(t, n + rng.choice([0, 0, 1, 5, 40, 300]))          # reserve (or exactly len)
                 elif r < 0.64 and n > 0: g.resize(t, rng.randrange(1, n + 1) if n > 1 else 1)   # below len: FormatError (== len is allowed)
-                elif r < 0.78:
-                    s = rng.randrange(NT)
-                    if s != t: g.assign(t, s)
-                elif r < 0.90:
+                elif r < 0.74:
+                    s = rng.randrange(NT) if rng.random() < 0.8 else t         # one in five: assign(t, t)
+                    g.assign(t, s)
+                elif r < 0.84:
                     s = rng.randrange(NT); g.copy(t, s)
-                elif r < 0.94: g.new(t, rng.choice(list(pools.keys())))
+                elif r < 0.89:
+                    kd = rng.choice(list(pools.keys())); pl = pools[kd]
+                    npairs = rng.choice([0, 1, 2, 3, 4, 5, 8, 9, 10, 20, 30])
+                    keys = [rng.choice(pl[:max(4, npairs)]) for _ in range(npairs)]        # a small pool: keys repeat
+                    g.newp(t, kd, keys, odd=rng.choice(pl) if rng.random() < 0.15 else None)
+                elif r < 0.93:
+                    kd = rng.choice(list(pools.keys())); pl = pools[kd]
+                    n = rng.choice([0, 1, 3, 4, 5, 9, 10, 25, 30])
+                    g.assignm(t, kd, rng.sample(pl, min(len(pl), n)) if rng.random() < 0.8 else [rng.choice(pl[:max(3, n // 2)]) for _ in range(n)])
+                elif r < 0.95: g.new(t, rng.choice(list(pools.keys())))
                 else: g.emit(f'check {t}')
             cs.append(Case(f'multi{rep}', g.lines))
         # (e) larger tables: window dumps + checksums
